@@ -74,14 +74,18 @@ def guarded(fn, limit):
 POINT_LIMIT = 0.25  # CPU seconds for one observer alone (a normal single call costs ~10 ms)
 
 
-def masks_guarded(evaluate, Q, limit):
-    """finite masks of all observers Q in one call; if the call hits the watchdog, every observer is evaluated alone
-    under a short watchdog so that the non-terminating ones are located (mask -1).  Returns (masks, cpu, ncalls)."""
+def masks_guarded(evaluate, Q, limit, excs):
+    """finite masks of all observers Q in one call.  If the call hits the watchdog or raises, every observer is
+    evaluated alone under a short watchdog so that the offending ones are located: mask -1 = does not return,
+    -2 = raises (class names collected in excs).  Returns (masks, cpu of the whole-box call)."""
     try:
         arrs, t = guarded(lambda: evaluate(Q), limit)
-        return finite_mask(arrs), t, 1
+        return finite_mask(arrs), t
     except Watchdog:
-        pass
+        t = limit
+        excs.add("<watchdog>")
+    except Exception:  # pylint: disable=broad-except
+        t = 0.0
     out = np.zeros(len(Q), dtype=np.int64)
     for i in range(len(Q)):
         try:
@@ -89,36 +93,42 @@ def masks_guarded(evaluate, Q, limit):
             out[i] = finite_mask(arrs)[0]
         except Watchdog:
             out[i] = -1
-    return out, limit, len(Q)
+        except Exception as ex:  # pylint: disable=broad-except
+            out[i] = -2
+            excs.add(type(ex).__name__)
+    if not ((out == -1) | (out == -2)).any():
+        # every observer alone is fine: the whole-box call itself is what fails
+        out[:] = -1 if t else -2
+    return out, t
 
 
 # ------------------------------------------------------------------------------------------------ variants
 def variants(P, size, which):
-    """list of (kind, observers) for the exact points P (n,3): per-coordinate offsets"""
+    """list of (kind, observers) for the exact points P (n,3): per-coordinate offsets.
+    which: "exact" | "ulp" | "eps" | "near" (each includes the exact points)"""
     out = [("exact", P)]
-    if which == "exact":
-        return out
-    for i in range(3):
-        for s in (-4, -1, 1, 4):
-            Q = P.copy()
-            col = Q[:, i]
-            for _ in range(abs(s)):
-                col = np.nextafter(col, np.inf if s > 0 else -np.inf)
-            Q[:, i] = col
-            out.append(("ulp", Q))
     if which == "ulp":
-        return out
-    eps = 2.0 ** -52 * size
-    for i in range(3):
-        for s in (-4, -1, 1, 4):
-            Q = P.copy()
-            Q[:, i] += s * eps
-            out.append(("eps", Q))
-    for i in range(3):
-        for mag in (1e-12, 1e-9, 1e-6):
-            Q = P.copy()
-            Q[:, i] += mag * size
-            out.append(("near", Q))
+        for i in range(3):
+            for s in (-4, -1, 1, 4):
+                Q = P.copy()
+                col = Q[:, i]
+                for _ in range(abs(s)):
+                    col = np.nextafter(col, np.inf if s > 0 else -np.inf)
+                Q[:, i] = col
+                out.append(("ulp", Q))
+    elif which == "eps":
+        eps = 2.0 ** -52 * size
+        for i in range(3):
+            for s in (-4, -1, 1, 4):
+                Q = P.copy()
+                Q[:, i] += s * eps
+                out.append(("eps", Q))
+    elif which == "near":
+        for i in range(3):
+            for mag in (1e-12, 1e-9, 1e-6):
+                Q = P.copy()
+                Q[:, i] += mag * size
+                out.append(("near", Q))
     return out
 
 
@@ -226,9 +236,10 @@ def run_job(magpy, job):
     p2 = job["p2"]
     sc = {"sid": job["sid"], "name": job["body"], "t0": job["sid"] * 10000, "kind": job["kind"], "body": entry["body"], "pose": {"R": R, "p2": p2}, "valid": entry["valid"], "exc0": job["exc0"],
           "scale": job["scale"], "gen": job["gen"], "iface": job["iface"], "fields": ["B", "H", "J", "M"], "vk": [], "outcome": "ok", "exc": "", "cpu": "fast",
-          "shapes": [], "pts": [], "job": job}
+          "shapes": [], "pts": [], "wd": [], "job": job}
     neval = 0
     cpu = 0.0
+    excs = set()
     try:
         try:
             src, body = guarded(lambda: ph.make_source(magpy, entry, kap.lam, m), limit)[0]
@@ -241,7 +252,8 @@ def run_job(magpy, job):
         src.orientation = kap.rot(np.array(R))
         size = kap.lam * max(1.0, max(abs(v) for v in entry["lo"] + entry["hi"]) / 2)
         if job["iface"] == "core":
-            cc = core_call(magpy, entry, src, kap.lam, m)
+            # (the bare formulas are not meant for zero-size sources: r0 = 0 divides by zero; the objects filter them)
+            cc = None if entry["name"] in ("Circle_0", "Sphere_0") else core_call(magpy, entry, src, kap.lam, m)
             if cc is None:
                 return None, 0
             sc["fields"], cf = cc
@@ -257,7 +269,10 @@ def run_job(magpy, job):
             P = kap.pos(o2 / 2)
             masks = []
             for kind, Q in variants(P, size, job["variants"]):
-                mk, t, _ = masks_guarded(evaluate, Q, limit)
+                excs.discard("<watchdog>")
+                mk, t = masks_guarded(evaluate, Q, limit, excs)
+                if "<watchdog>" in excs:   # the whole-box call of this variant did not return within the limit
+                    sc["wd"].append(len(masks) + 1)
                 cpu = max(cpu, t)
                 masks.append(mk)
                 sc["vk"].append(kind)
@@ -276,7 +291,9 @@ def run_job(magpy, job):
         else:  # far points m * 10^k lattice units in the local frame of the (identity) pose
             far = [(mm, k) for k in range(1, job["kmax"] + 1) for mm in FAR_M]
             P = np.array([np.array(mm, dtype=float) * 10.0 ** k for mm, k in far]) * kap.lam
-            mask, t, _ = masks_guarded(evaluate, P, limit)
+            mask, t = masks_guarded(evaluate, P, limit, excs)
+            if "<watchdog>" in excs:
+                sc["wd"].append(1)
             cpu = max(cpu, t)
             sc["vk"] = ["exact"]
             neval += len(P) * len(sc["fields"])
@@ -288,26 +305,31 @@ def run_job(magpy, job):
         sc["outcome"] = "exception"
         sc["exc"] = type(ex).__name__
         sc["pts"] = []
+    excs.discard("<watchdog>")
+    if excs and not sc["exc"]:
+        sc["exc"] = "+".join(sorted(excs))
     sc["cpu"] = cpu_class(cpu)
     return sc, neval
 
 
-def worker(args):
-    jobs, path = args
+def worker(job):
+    """execute ONE job (scheduled dynamically: non-terminating calls make the cost of a scene unpredictable);
+    returns (json line or None, #scenes, #point events, #field evaluations, cpu class, cpu seconds)"""
     magpy = import_magpylib()
-    ns = npts = nev = 0
-    cpus = {}
-    with open(path, "w") as f:
-        for job in jobs:
-            sc, ne = run_job(magpy, job)
-            if sc is None:
-                continue
-            f.write(json.dumps(sc, separators=(",", ":")) + "\n")
-            ns += 1
-            npts += max(1, len(sc["pts"])) if sc["outcome"] != "ok" else len(sc["pts"])
-            nev += ne
-            cpus[sc["cpu"]] = cpus.get(sc["cpu"], 0) + 1
-    return ns, npts, nev, cpus
+    t0 = time.process_time()
+    sc, ne = run_job(magpy, job)
+    if sc is None:
+        return None, 0, 0, 0, None, time.process_time() - t0
+    npts = max(1, len(sc["pts"])) if sc["outcome"] != "ok" else len(sc["pts"])
+    return json.dumps(sc, separators=(",", ":")), 1, npts, ne, sc["cpu"], time.process_time() - t0
+
+
+def job_cost(j):
+    e = CAT[j["body"]]
+    npts = np.prod([e["hi"][i] - e["lo"][i] + 3 for i in range(3)]) if j["kind"] == "scan" else 180
+    nv = {"ulp": 13, "eps": 13, "near": 10, "exact": 1}.get(j.get("variants", "exact"), 1)
+    w = {"CylinderSegment": 8, "TriangularMesh": 4, "Tetrahedron": 2, "Circle": 20}.get(e["body"]["cls"], 1)
+    return float(npts * nv * w)
 
 
 def plan(tier):
@@ -315,7 +337,7 @@ def plan(tier):
     r = rng("c15plan")
     jobs = []
     sid = [0]
-    limit = 3.0 if quick else 10.0   # CPU seconds per call (a normal whole-box call needs < 0.5 s)
+    limit = 2.0 if quick else 10.0   # CPU seconds per call (a normal whole-box call needs < 0.5 s)
 
     def new(**kw):
         sid[0] += 1
@@ -325,18 +347,22 @@ def plan(tier):
     gens = [100, -8, 7] if quick else [100, -9, -6, -3, 3, 6, 8]
     for bi, name in enumerate(CAT):
         base = {"body": name, "ri": 0, "p2": [0, 0, 0], "exc0": False, "gen": False, "scale": 100}
-        # exact lattice, identity pose: all variants, both interfaces, shape probes
-        new(kind="scan", iface="object", variants="all", shapes=True, **base)
-        new(kind="scan", iface="core", variants="all", shapes=True, **base)
+        # exact lattice, identity pose: all variants (one job per kind of variant), both interfaces, shape probes
+        for iface in ("object", "core"):
+            new(kind="scan", iface=iface, variants="ulp", shapes=True, **base)
+            new(kind="scan", iface=iface, variants="eps", **base)
+            new(kind="scan", iface=iface, variants="near", **base)
         new(kind="far", iface="object", kmax=12, **base)
         new(kind="far", iface="core", kmax=12, **base)
         # zero excitation
         new(kind="scan", iface="object", variants="ulp", **{**base, "exc0": True})
-        new(kind="scan", iface="core", variants="ulp", **{**base, "exc0": True})
+        if not quick:
+            new(kind="scan", iface="core", variants="ulp", **{**base, "exc0": True})
         # other lattice units (pure scaling)
         for d in scales:
             new(kind="scan", iface="object", variants="ulp", **{**base, "scale": d})
-            new(kind="scan", iface="core", variants="ulp", **{**base, "scale": d})
+            if not quick:
+                new(kind="scan", iface="core", variants="ulp", **{**base, "scale": d})
             if not quick or d == scales[-1]:
                 new(kind="far", iface="object", kmax=12, **{**base, "scale": d})
         # lattice poses (rotation + half-integer position), ulp offsets in the global frame
@@ -346,20 +372,3 @@ def plan(tier):
         for d in gens:
             new(kind="scan", iface="object", variants="exact", **{**base, "gen": True, "scale": d, "ri": (5 * bi + 1) % 24, "p2": [r.randint(-4, 4) for _ in range(3)]})
     return jobs
-
-
-def split_jobs(jobs, n):
-    def cost(j):
-        e = CAT[j["body"]]
-        npts = np.prod([e["hi"][i] - e["lo"][i] + 3 for i in range(3)]) if j["kind"] == "scan" else 180
-        nv = {"all": 34, "ulp": 13, "exact": 1}.get(j.get("variants", "exact"), 1)
-        w = {"CylinderSegment": 8, "TriangularMesh": 4, "Tetrahedron": 2}.get(e["body"]["cls"], 1)
-        return npts * nv * w
-    order = sorted(jobs, key=cost, reverse=True)
-    out = [[] for _ in range(n)]
-    load = [0] * n
-    for j in order:
-        k = load.index(min(load))
-        out[k].append(j)
-        load[k] += cost(j)
-    return [o for o in out if o]
